@@ -22,6 +22,11 @@ func RedirectTable() map[string]string {
 	in.Redirect["syscall.Syscall6"] = "vstubSyscall6"
 	in.Redirect["syscall.RawSyscall"] = "vstubSyscall"
 	in.Redirect["syscall.RawSyscall6"] = "vstubSyscall6"
+	in.Redirect["golang.org/x/sys/unix.Syscall"] = "vstubSyscall"
+	in.Redirect["golang.org/x/sys/unix.Syscall6"] = "vstubSyscall6"
+	in.Redirect["golang.org/x/sys/unix.RawSyscall"] = "vstubSyscall"
+	in.Redirect["golang.org/x/sys/unix.RawSyscall6"] = "vstubSyscall6"
+	in.Redirect["golang.org/x/sys/unix.Prctl"] = "vstubUnixPrctl"
 	in.Redirect["runtime.LockOSThread"] = "vstubLockOSThread"
 	in.Redirect["runtime.UnlockOSThread"] = "vstubUnlockOSThread"
 	// ambient environment (stubs in the runtime file of every package)
